@@ -501,6 +501,10 @@ class DeepCopyMethod(MethodDescriptor):
         if self.__spec_class__.do_not_copy:
             return self
         new = self.__class__.__new__(self.__class__)
+        if memo is not None:
+            # Register the copy before descending, so that references back to
+            # this instance resolve to the copy instead of recursing.
+            memo[id(self)] = new
         for attr, value in self.__dict__.items():
             if attr == "__spec_class_initializing__":
                 # A copy taken while the original is still being constructed
